@@ -52,9 +52,13 @@ class Report:
     # ---- results ----
     def all_violations(self):
         out = []
+        seen = set()
         for rid in self.order:
             r = self.rules[rid]
-            out.extend(r['violations'])
+            for v in r['violations']:
+                if (rid, v['key']) not in seen:     # the same key in several build configurations is one violation
+                    seen.add((rid, v['key']))
+                    out.append(v)
             n = len(r['instances'])
             if n < r['floor']:
                 out.append(dict(rule=rid, key='floor', msg='rule %s examined %d instances, fewer than the %d confirmed by hand on the reference tree (failing closed)' % (rid, n, r['floor']), where=None))
